@@ -435,6 +435,8 @@ void gen_lp_family(Tape &t, const GenOpts &o, int family, GenLP &out) {
     m = Model();
     m.objsense = t.coin() ? -1 : 1;
     bool wide = o.minn >= 400 || o.minm >= 200;
+    bool old_extend = t.extend;
+    if (wide) t.extend = true;          // hundreds of columns: do not degenerate when the sized tape runs out
     int n = wide ? 400 + (int)t.below(120) : 4 + (int)t.below((uint32_t)std::max(1, std::min(o.maxn, 12) - 3));
     int mm = wide ? 16 + (int)t.below(50) : 2 + (int)t.below((uint32_t)std::max(1, std::min(o.maxm, 8) - 1));
     for (int j = 0; j < n; j++) {
@@ -471,6 +473,7 @@ void gen_lp_family(Tape &t, const GenOpts &o, int family, GenLP &out) {
     }
     make_optimal(t, m, 0, (int)t.below(6), out);
     out.family += wide ? "/wide" : "/small";
+    t.extend = old_extend;
     break;
   }
   case F_FIXB: {
